@@ -1,4 +1,5 @@
 import XpmVerif.Proofs.IdentPerm
+import XpmVerif.Proofs.IdentDeep
 import XpmVerif.Model.IdentImpl
 import XpmVerif.Generated.HashFlags
 /-! C01 — a configuration's identifier is a pure function of its content.
@@ -62,5 +63,134 @@ def idAfter (flag : Bool) (order : List Nat) (n : Nat) : Nat :=
 theorem request_order_matters_without_flag : idAfter false [0] 1 ≠ idAfter false [] 1 := by decide
 theorem request_order_irrelevant_with_flag_witness :
     idAfter true [0] 1 = rawId toyHC cyc 1 ∧ idAfter true [2, 0] 1 = rawId toyHC cyc 1 ∧ idAfter true [] 1 = rawId toyHC cyc 1 := by decide
+
+/-! ### Any depth, simultaneously (helpers in `Proofs/IdentDeep.lean`)
+
+    `Reord v v'`: `v'` is `v` with the items of its dicts — at any depth, also directly inside a list or
+    another dict — inserted in another order.  `DistinctKeys v`: the keys of every dict at every depth
+    are pairwise distinct (a Python dict).  `NodeReord nd nd'`: arguments stored in another order *and*
+    their values `Reord`-related, everything else equal.  `GraphReord g g'`: `NodeReord` at every node. -/
+
+/-- **dicts at any depth of a value.** Reordering every dict of a value, at every depth, leaves its
+    encoding unchanged (no node boundary is needed between the nested containers). -/
+theorem value_encoding_any_depth_order (cfg : Nat → List Nat) (mt : Nat → Option Bool) {v v' : Val}
+    (h : Reord v v') (hd : DistinctKeys v) : encVal cfg mt v = encVal cfg mt v' :=
+  encVal_reord cfg mt h hd
+
+/-- the comparison with the default (`default == remove_meta(value)`) does not see the reordering
+    either, whatever the default (dicts nested in dicts included). -/
+theorem default_comparison_any_depth_order (mt : Nat → Option Bool) (d : Val) {v v' : Val}
+    (h : Reord v v') (hd : DistinctKeys v) : pyEq d (removeMeta mt v) = pyEq d (removeMeta mt v') :=
+  pyEq_reord d (removeMeta_reord mt h) (removeMeta_distinctKeys mt hd)
+
+/-- hence the four skip rules take the same decision for the reordered argument. -/
+theorem argument_inclusion_any_depth_order (mt : Nat → Option Bool) {a a' : Arg} (h : ArgReord a a')
+    (hd : DistinctKeys a.value) : included mt a = included mt a' :=
+  included_reord mt h hd
+
+/-- **node level, both reorderings at once.** -/
+theorem node_stream_any_depth_order (cfg : Nat → List Nat) (mt : Nat → Option Bool) (self : Nat) {nd nd' : Node}
+    (h : NodeReord nd nd') (hd : NodeDistinctKeys nd) :
+    nodeStream cfg mt self nd = nodeStream cfg mt self nd' :=
+  nodeStream_reord cfg mt self h hd
+
+/-- **raw identifier.** Arguments permuted and dicts reordered at every depth in every node:
+    all raw identifiers agree, for every hash function. -/
+theorem raw_identifier_any_depth_order {D : Type} (hc : HC D) {g g' : Graph} (h : GraphReord g g')
+    (hd : GraphDistinctKeys g) (n : Nat) : rawId hc g n = rawId hc g' n :=
+  h.rawId_eq hc hd n
+
+/-- the configuration walk visits the same *set* of nodes (in another order), so the collected
+    pre-tasks are a permutation of each other. -/
+theorem collected_pre_tasks_any_depth_order {g g' : Graph} (h : GraphReord g g') (n : Nat) :
+    collectPreTasks g n ~ collectPreTasks g' n :=
+  h.collectPreTasks_perm n
+
+/-- **full identifier.** Same hypotheses, and the order used by `sorted(pre_tasks_ids)` is a total order
+    on digests: the full identifiers agree although the pre-tasks are collected in another order. -/
+theorem full_identifier_any_depth_order {D : Type} (hc : HC D) {g g' : Graph} (h : GraphReord g g')
+    (hd : GraphDistinctKeys g)
+    (total : ∀ a b, hc.le a b = true ∨ hc.le b a = true)
+    (trans : ∀ a b c, hc.le a b = true → hc.le b c = true → hc.le a c = true)
+    (antisymm : ∀ a b, hc.le a b = true → hc.le b a = true → a = b) (n : Nat) :
+    fullId hc g n = fullId hc g' n :=
+  h.fullId_eq hc hd total trans antisymm n
+
+/-! non-vacuity: `{"a": [{"x": 1, "y": 2}], "b": 3}` against `{"b": 3, "a": [{"y": 2, "x": 1}]}` — a dict
+    inside a list inside a dict, reordered at both levels. -/
+def deepV : Val := .dict [[97], [98]] [.list [.dict [[120], [121]] [.int 1, .int 2]], .int 3]
+def deepV' : Val := .dict [[98], [97]] [.int 3, .list [.dict [[121], [120]] [.int 2, .int 1]]]
+
+theorem deepV_reord : Reord deepV deepV' :=
+  .dict (mid := [.list [.dict [[121], [120]] [.int 2, .int 1]], .int 3])
+    (.cons (.list (.cons
+        (.dict (mid := [.int 1, .int 2]) (.cons (.int 1) (.cons (.int 2) .nil)) (Perm.swap _ _ []) rfl rfl)
+        .nil))
+      (.cons (.int 3) .nil))
+    (Perm.swap _ _ []) rfl rfl
+
+theorem deepV_distinctKeys : DistinctKeys deepV := by
+  simp [deepV, DistinctKeys, DistinctKeysL]
+
+example : encVal (fun _ => []) (fun _ => none) deepV = encVal (fun _ => []) (fun _ => none) deepV' := by decide
+
+/-- two nodes; node 0 holds the nested value, a reference and a pre-task; in `deepG'` its arguments are
+    swapped and the dicts reordered. -/
+def deepG : Graph := { nodes := [
+  { typeId := [97], args := [{ name := [100], value := deepV }, { name := [120], value := .list [.ref 1] }], preTasks := [1] },
+  { typeId := [98], args := [{ name := [122], value := .int 7 }] }] }
+def deepG' : Graph := { nodes := [
+  { typeId := [97], args := [{ name := [120], value := .list [.ref 1] }, { name := [100], value := deepV' }], preTasks := [1] },
+  { typeId := [98], args := [{ name := [122], value := .int 7 }] }] }
+
+theorem deepG_reord : GraphReord deepG deepG' where
+  size := rfl
+  node := fun n hn => match n, hn with
+    | 0, _ =>
+      { typeId := rfl, task := rfl, mflag := rfl, preTasks := rfl, initTasks := rfl
+        args := ⟨[{ name := [100], value := deepV' }, { name := [120], value := .list [.ref 1] }],
+          .cons ⟨rfl, rfl, rfl, rfl, rfl, rfl, deepV_reord⟩
+            (.cons ⟨rfl, rfl, rfl, rfl, rfl, rfl, .list (.cons (.ref 1) .nil)⟩ .nil),
+          Perm.swap _ _ []⟩
+        names := by decide }
+    | 1, _ =>
+      { typeId := rfl, task := rfl, mflag := rfl, preTasks := rfl, initTasks := rfl
+        args := ⟨_, .cons ⟨rfl, rfl, rfl, rfl, rfl, rfl, .int 7⟩ .nil, Perm.refl _⟩
+        names := by decide }
+    | n + 2, h => absurd h (by simp [deepG, Graph.size])
+
+theorem deepG_distinctKeys : GraphDistinctKeys deepG := fun n hn => match n, hn with
+  | 0, _ => by
+    intro a ha
+    simp [deepG, Graph.node] at ha
+    rcases ha with rfl | rfl
+    · exact deepV_distinctKeys
+    · simp [DistinctKeys, DistinctKeysL]
+  | 1, _ => by
+    intro a ha
+    simp [deepG, Graph.node] at ha
+    subst ha; trivial
+  | n + 2, h => absurd h (by simp [deepG, Graph.size])
+
+example : fullId toyHC deepG 0 = fullId toyHC deepG' 0 :=
+  full_identifier_any_depth_order toyHC deepG_reord deepG_distinctKeys
+    (fun a b => by simp only [toyHC, decide_eq_true_eq]; omega)
+    (fun a b c => by simp only [toyHC, decide_eq_true_eq]; omega)
+    (fun a b => by simp only [toyHC, decide_eq_true_eq]; omega) 0
+
+/-- the relation is not trivial: it never changes a value stored under a key. -/
+example : ¬ Reord (.dict [[97]] [.int 1]) (.dict [[97]] [.int 2]) := by
+  intro h
+  cases h with
+  | dict hl hp _ _ =>
+    cases hl with
+    | cons hv hl' =>
+      cases hv; cases hl'
+      have := hp.mem_iff (a := ([97], Val.int 1))
+      simp at this
+
+/-- `DistinctKeys` is needed in the model: with a repeated key the (stable) sort keeps the insertion order. -/
+example : encVal (fun _ => []) (fun _ => none) (.dict [[97], [97]] [.int 1, .int 2])
+    ≠ encVal (fun _ => []) (fun _ => none) (.dict [[97], [97]] [.int 2, .int 1]) := by decide
 
 end XpmVerif.C01
